@@ -17,7 +17,8 @@ package xixi_kv
 //@ pred olderFlushed(db) = forall id :: {db.olderFiles[id]} has(db.olderFiles, id) ==> db.olderFiles[id].ReadWriter.durable == db.olderFiles[id].ReadWriter.size && db.olderFiles[id].kind == datafile.DataFileSuffix && !db.olderFiles[id].closed
 //@ pred olderSep(db) = forall id :: {db.olderFiles[id]} has(db.olderFiles, id) ==> dyn(db.olderFiles[id].ReadWriter) != dyn(db.activeFile.ReadWriter) && arr(db.olderFiles[id].headerBuf) != arr(db.logRecordHeader)
 //@ pred olderOK(db) = olderIds(db) && olderInv(db) && olderFlushed(db) && olderSep(db)
-//@ pred INV_db(db) = db != nil && db.index != nil && db.recordPool != nil && db.activeFile != nil && db.olderFiles != nil && INV_df(db.activeFile) && !db.activeFile.closed && db.activeFile.kind == datafile.DataFileSuffix && len(db.logRecordHeader) == 21 && arr(db.logRecordHeader) != arr(db.activeFile.headerBuf) && owned(db.logRecordHeader) && owned(db.activeFile.headerBuf) && db.bytesWrite <= db.activeFile.ReadWriter.size && db.options.DataFileSize > 0 && (db.options.SyncStrategy == Threshold ==> db.options.BytesPerSync > 0) && olderOK(db)
+//@ pred INV_files(db) = db != nil && db.activeFile != nil && db.olderFiles != nil && INV_df(db.activeFile) && !db.activeFile.closed && db.activeFile.kind == datafile.DataFileSuffix && (arr(db.hintPos) == 0 || len(db.hintPos) == 25) && len(db.logRecordHeader) == 21 && arr(db.logRecordHeader) != arr(db.activeFile.headerBuf) && owned(db.logRecordHeader) && owned(db.activeFile.headerBuf) && db.bytesWrite <= db.activeFile.ReadWriter.size && db.options.DataFileSize > 0 && (db.options.SyncStrategy == Threshold ==> db.options.BytesPerSync > 0) && olderOK(db)
+//@ pred INV_db(db) = INV_files(db) && db.index != nil && db.recordPool != nil
 // space accounting: DiskSize - ReclaimableSize is the number of bytes occupied by the live records
 //@ pred ACC(db) = db.totalSize - db.reclaimSize == db.index.live && 0 <= db.reclaimSize && 0 <= db.index.live
 // every indexed position names a file the database holds open, at a valid in-block offset
@@ -52,11 +53,12 @@ package xixi_kv
 //@   io_effect
 //@   props C01 C13 C17 C03
 //@   requires [locked] db.mu == nil || db.mu.heldW
-//@   requires [inv]    INV_db(db) && db.activeFile.ID < 4294967295
-//@   ensures [rotated] result == nil ==> INV_db(db) && fresh(db.activeFile) && db.activeFile.ID == old(db.activeFile.ID) + 1 && db.activeFile.ReadWriter.writes == 0 && len(db.activeFile.bufferedWrites) == 0 && arr(db.activeFile.bufferedWrites) == 0 && fresh(db.activeFile.ReadWriter) && fresh(db.activeFile.headerBuf) && has(db.olderFiles, old(db.activeFile.ID)) && db.olderFiles[old(db.activeFile.ID)] == old(db.activeFile)
+//@   requires [inv]    INV_files(db) && db.activeFile.ID < 4294967295
+//@   ensures [rotated] result == nil ==> INV_files(db) && fresh(db.activeFile) && db.activeFile.ID == old(db.activeFile.ID) + 1 && db.activeFile.ReadWriter.writes == 0 && len(db.activeFile.bufferedWrites) == 0 && arr(db.activeFile.bufferedWrites) == 0 && fresh(db.activeFile.ReadWriter) && fresh(db.activeFile.headerBuf) && has(db.olderFiles, old(db.activeFile.ID)) && db.olderFiles[old(db.activeFile.ID)] == old(db.activeFile)
 //@   ensures [rotate-flushed] result == nil ==> old(db.activeFile).ReadWriter.durable == old(db.activeFile).ReadWriter.size
 //@   ensures [older-kept] forall id :: {db.olderFiles[id]} id != old(db.activeFile.ID) ==> has(db.olderFiles, id) == old(has(db.olderFiles, id)) && db.olderFiles[id] == old(db.olderFiles[id])
 //@   ensures [older-dom-kept] forall id :: {old(indom(db.olderFiles, id))} old(has(db.olderFiles, id)) ==> has(db.olderFiles, id)
+//@   ensures [older-only-rotated] forall id :: {indom(db.olderFiles, id)} has(db.olderFiles, id) ==> old(has(db.olderFiles, id)) || id == old(db.activeFile.ID)
 //@   ensures [counter] result == nil ==> db.bytesWrite == 0
 //@   ensures [err-keeps-active] result != nil ==> db.activeFile == old(db.activeFile)
 //@   ensures [foreign-errors] !engineErr(result)
@@ -66,9 +68,9 @@ package xixi_kv
 //@   io_effect
 //@   props C01 C13 C17 C03 C08
 //@   requires [locked] db.mu == nil || db.mu.heldW
-//@   requires [inv]    INV_db(db) && db.activeFile.ID < 4294967295 && db.totalSize <= 4611686018427387904
+//@   requires [inv]    INV_files(db) && db.activeFile.ID < 4294967295 && db.totalSize <= 4611686018427387904
 //@   requires [rec]    logRecord != nil && len(logRecord.Key) + len(logRecord.Value) <= 134217728
-//@   ensures [inv]     result1 == nil ==> INV_db(db)
+//@   ensures [inv]     result1 == nil ==> INV_files(db)
 //@   ensures [pos]     result1 == nil ==> result0 != nil && fresh(result0) && result0.Fid == db.activeFile.ID && result0.Offset < 32768
 //@   ensures [total]   result1 == nil ==> db.totalSize == old(db.totalSize) + result0.Size
 //@   ensures [err]     result1 != nil ==> result0 == nil
@@ -77,6 +79,8 @@ package xixi_kv
 //@   ensures [counter-exact] result1 == nil ==> (db.bytesWrite == 0 && db.activeFile.ReadWriter.durable == db.activeFile.ReadWriter.size) || db.bytesWrite == (db.activeFile == old(db.activeFile) ? old(db.bytesWrite) : 0) + result0.Size
 //@   ensures [rotate-flushed] db.activeFile != old(db.activeFile) ==> old(db.activeFile).ReadWriter.durable == old(db.activeFile).ReadWriter.size && has(db.olderFiles, old(db.activeFile.ID)) && db.olderFiles[old(db.activeFile.ID)] == old(db.activeFile) && db.activeFile.ID == old(db.activeFile.ID) + 1
 //@   ensures [limit]   result1 == nil ==> db.activeFile.ReadWriter.size <= db.options.DataFileSize || db.activeFile != old(db.activeFile)
+//@   ensures [older-only-rotated] forall id :: {indom(db.olderFiles, id)} has(db.olderFiles, id) ==> old(has(db.olderFiles, id)) || (id == old(db.activeFile.ID) && (db.activeFile != old(db.activeFile) || result1 != nil))
+//@   ensures [active]  db.activeFile == old(db.activeFile) || (fresh(db.activeFile) && fresh(db.activeFile.ReadWriter) && fresh(db.activeFile.headerBuf))
 //@   ensures [older-kept] forall id :: {db.olderFiles[id]} old(has(db.olderFiles, id)) ==> has(db.olderFiles, id) && db.olderFiles[id] == old(db.olderFiles[id])
 //@   ensures [older-dom-kept] forall id :: {old(indom(db.olderFiles, id))} old(has(db.olderFiles, id)) ==> has(db.olderFiles, id)
 //@   ensures [foreign-errors] !engineErr(result1)
@@ -463,3 +467,62 @@ package xixi_kv
 //@     invariant [reader] INV_reader(reader) && reader.dataFile.kind == datafile.DataFileSuffix && !reader.dataFile.closed
 //@     invariant [pending] forall id, j :: {transactionRecords[id][j]} has(transactionRecords, id) && 0 <= j && j < len(transactionRecords[id]) ==> transactionRecords[id][j] != nil && transactionRecords[id][j].Record != nil && transactionRecords[id][j].Pos != nil && transactionRecords[id][j].Record.Type != datafile.LogRecordBatchFinished
 //@     invariant [pending-own] forall id :: {transactionRecords[id]} has(transactionRecords, id) ==> arr(transactionRecords[id]) == 0 || fresh(transactionRecords[id])
+
+// ---------------------------------------------------------------------------------------------
+// Merge
+// ---------------------------------------------------------------------------------------------
+
+//@ func utils.AvailableDiskSize
+//@   trusted
+//@   pure
+//@   ensures [io-error-identity] !engineErr(result1)
+
+//@ func (*xixi_kv.DB).mergeCheck
+//@   props C09 C17 C06
+//@   requires [locked] db.mu != nil && db.mu.heldW
+//@   ensures [foreign-errors] result == ErrMergeIsProgress || result == ErrMergeRatioUnreached || result == ErrNoEnoughSpaceForMerge || !engineErr(result)
+//@   ensures [not-merging] result == nil ==> !db.isMerging
+//@   modifies nothing
+
+// files taking part in the merge: rotated, immutable, open data files older than the snapshot id
+//@ pred mergeInput(fs2, snap) = forall j :: {fs2[j]} 0 <= j && j < len(fs2) ==> fs2[j] != nil && INV_df(fs2[j]) && fs2[j].kind == datafile.DataFileSuffix && !fs2[j].closed && fs2[j].ID < snap && allocatedBefore(fs2[j])
+// the private database instance that writes the merge output
+//@ pred mergeOut(m, snap) = m != nil && m.mu == nil && INV_files(m) && fresh(m) && fresh(m.activeFile) && fresh(m.activeFile.ReadWriter) && fresh(m.activeFile.headerBuf) && fresh(m.logRecordHeader) && fresh(m.olderFiles) && m.activeFile.ID < snap && m.options.SyncStrategy == No
+//@ pred mergeOutOlder(m, h) = forall id :: {m.olderFiles[id]} has(m.olderFiles, id) ==> fresh(m.olderFiles[id]) && fresh(m.olderFiles[id].ReadWriter) && m.olderFiles[id] != h && dyn(m.olderFiles[id].ReadWriter) != dyn(h.ReadWriter) && arr(m.olderFiles[id].headerBuf) != arr(h.headerBuf)
+
+//@ func (*xixi_kv.DB).Merge
+//@   props C06 C18 C04 C09 C07
+//@   ownership
+//@   io_effect
+//@   per_return
+//@   content
+//@   requires [api]  API(db) && db.activeFile.ID < 4294967294
+//@   ensures [unlocked]  !db.mu.heldW && !db.mu.heldR
+//@   ensures [not-merging] !db.isMerging || old(db.isMerging)
+//@   ensures [live-mapping-untouched] db.index.model == old(db.index.model) && db.index.count == old(db.index.count)
+//@   at (*xixi_kv.DB).appendLogRecord assert [rewritten-as-plain] arg0 == mergeDB && arg1.BatchID == 0 && arg1 == result_of("(*datafile.DataReader).NextLogRecord", 0)
+//@   at (*xixi_kv.DB).appendLogRecord assume [byte-counters-do-not-overflow] arg0.totalSize <= 4611686018427387904
+//@   at (*xixi_kv.DB).appendLogRecord assert [live-only] result_of("(*index.ShardedIndex).Get") != nil && result_of("(*index.ShardedIndex).Get").Fid == result_of("(*datafile.DataReader).NextLogRecord", 1).Fid && result_of("(*index.ShardedIndex).Get").BlockID == result_of("(*datafile.DataReader).NextLogRecord", 1).BlockID && result_of("(*index.ShardedIndex).Get").Offset == result_of("(*datafile.DataReader).NextLogRecord", 1).Offset
+//@   at (*datafile.DataFile).WriteHintRecord assert [hint-pairs] arg0 == hintFile && keyid(arg1) == keyid(result_of("(*datafile.DataReader).NextLogRecord", 0).Key) && arg3 == result_of("(*xixi_kv.DB).appendLogRecord", 0) && arg3.Fid == mergeDB.activeFile.ID
+//@   at (*datafile.DataFile).WriteHintRecord assert [id-room] mergeDB.activeFile.ID < nonMergeFileId
+//@   at (*datafile.DataFile).WriteMergeFinRecord assert [marker-last] arg1 == nonMergeFileId && arg2 == mergeDB.activeFile.ID + 1 && arg2 <= arg1 && arg1 > 0
+//@   at (*datafile.DataFile).WriteMergeFinRecord assert [all-closed-before-marker] hintFile.closed && hintFile.ReadWriter.closed && hintFile.ReadWriter.durable == hintFile.ReadWriter.size && mergeDB.activeFile.closed && mergeDB.activeFile.ReadWriter.closed && mergeDB.activeFile.ReadWriter.durable == mergeDB.activeFile.ReadWriter.size && (forall id :: {mergeDB.olderFiles[id]} has(mergeDB.olderFiles, id) ==> mergeDB.olderFiles[id].closed && mergeDB.olderFiles[id].ReadWriter.closed && mergeDB.olderFiles[id].ReadWriter.durable == mergeDB.olderFiles[id].ReadWriter.size)
+//@   at os.RemoveAll assert [only-the-merge-directory] arg0 == mergeDirOf(db.options.DirPath)
+//@   modifies db.mu.heldW, db.mu.sections, db.isMerging, db.hintPos, db.hintPos[*], db.activeFile, db.olderFiles[*], db.bytesWrite, db.activeFile.ReadWriter.durable
+//@   loop 1
+//@     invariant [locked] db.mu.heldW && !db.mu.heldR && db.isMerging && INV_db(db) && db.mu == old(db.mu) && db.index == old(db.index) && nonMergeFileId == db.activeFile.ID && nonMergeFileId > 0
+//@     invariant [inputs] mergeInput(mergeFiles, nonMergeFileId) && (arr(mergeFiles) == 0 || fresh(mergeFiles))
+//@   loop 2
+//@     invariant [unlocked] !db.mu.heldW && !db.mu.heldR && db.mu == old(db.mu) && db.mu != nil && db.index == old(db.index) && db.index != nil && nonMergeFileId > 0 && len(db.hintPos) >= 25 && (fresh(db.hintPos) || db.hintPos == old(db.hintPos))
+//@     invariant [inputs] mergeInput(mergeFiles, nonMergeFileId)
+//@     invariant [outputs-older] mergeOutOlder(mergeDB, hintFile)
+//@     invariant [outputs] mergeOut(mergeDB, nonMergeFileId) && hintFile != nil && fresh(hintFile) && fresh(hintFile.ReadWriter) && fresh(hintFile.headerBuf) && INV_df(hintFile) && !hintFile.closed && arr(db.hintPos) != arr(hintFile.headerBuf) && hintFile != mergeDB.activeFile && dyn(hintFile.ReadWriter) != dyn(mergeDB.activeFile.ReadWriter) && arr(hintFile.headerBuf) != arr(mergeDB.activeFile.headerBuf) && arr(hintFile.headerBuf) != arr(mergeDB.logRecordHeader) && mergePath == mergeDirOf(db.options.DirPath)
+//@   loop 3
+//@     invariant [unlocked] !db.mu.heldW && !db.mu.heldR && db.mu == old(db.mu) && db.mu != nil && db.index == old(db.index) && db.index != nil && nonMergeFileId > 0 && len(db.hintPos) >= 25 && (fresh(db.hintPos) || db.hintPos == old(db.hintPos))
+//@     invariant [inputs] mergeInput(mergeFiles, nonMergeFileId)
+//@     invariant [outputs-older] mergeOutOlder(mergeDB, hintFile)
+//@     invariant [outputs] mergeOut(mergeDB, nonMergeFileId) && hintFile != nil && fresh(hintFile) && fresh(hintFile.ReadWriter) && fresh(hintFile.headerBuf) && INV_df(hintFile) && !hintFile.closed && arr(db.hintPos) != arr(hintFile.headerBuf) && hintFile != mergeDB.activeFile && dyn(hintFile.ReadWriter) != dyn(mergeDB.activeFile.ReadWriter) && arr(hintFile.headerBuf) != arr(mergeDB.activeFile.headerBuf) && arr(hintFile.headerBuf) != arr(mergeDB.logRecordHeader) && mergePath == mergeDirOf(db.options.DirPath)
+//@     invariant [reader] INV_reader(reader) && reader.dataFile.kind == datafile.DataFileSuffix && !reader.dataFile.closed && fresh(reader)
+//@   loop 4
+//@     invariant [unlocked] !db.mu.heldW && !db.mu.heldR && db.mu == old(db.mu) && db.mu != nil && nonMergeFileId > 0 && mergePath == mergeDirOf(db.options.DirPath)
+//@     invariant [closed-so-far] hintFile.closed && hintFile.ReadWriter.closed && hintFile.ReadWriter.durable == hintFile.ReadWriter.size && mergeDB != nil && mergeDB.activeFile != nil && mergeDB.activeFile.closed && mergeDB.activeFile.ReadWriter.closed && mergeDB.activeFile.ReadWriter.durable == mergeDB.activeFile.ReadWriter.size && mergeDB.activeFile.ID < nonMergeFileId && (forall id :: {mergeDB.olderFiles[id]} has(mergeDB.olderFiles, id) ==> mergeDB.olderFiles[id] != nil && mergeDB.olderFiles[id].ReadWriter != nil && mergeDB.olderFiles[id].ID == id && mergeDB.olderFiles[id] != mergeDB.activeFile && mergeDB.olderFiles[id] != hintFile && (seen(id) ==> mergeDB.olderFiles[id].closed && mergeDB.olderFiles[id].ReadWriter.closed && mergeDB.olderFiles[id].ReadWriter.durable == mergeDB.olderFiles[id].ReadWriter.size) && (!seen(id) ==> !mergeDB.olderFiles[id].closed))
